@@ -764,6 +764,24 @@ fn eval_case(rep: &mut Report, c: &Case, reruns: usize, children: usize, probes_
         rep.inconclusive(format!("in-process runner thread died for {:?}", c.json()));
         return;
     }
+    // a run must not depend on what ran before it on the same thread: precede the case by a *different*
+    // case (another preset of the same harness with another seed, and a fault-heavy DSTSimulation run)
+    let after_other: Option<(String, usize)> = {
+        let (h, p, s, ops) = (c.h.clone(), c.p.clone(), c.s, c.ops);
+        let other_p = catalogue().iter().find(|x| x.0 == c.h).and_then(|x| x.1.iter().rev().find(|q| **q != c.p).map(|q| q.to_string())).unwrap_or_else(|| c.p.clone());
+        let contaminator = if c.p == "chaos" { "calm" } else { "chaos" };
+        std::thread::Builder::new()
+            .stack_size(32 << 20)
+            .spawn(move || {
+                let _ = dump_text(&h, &other_p, s.wrapping_add(7919), ops);
+                let _ = dump_text("DSTSimulation", contaminator, s.wrapping_add(1), 60);
+                let _ = dump_text("buggify", contaminator, s.wrapping_add(2), 40);
+                dump_text(&h, &p, s, ops)
+            })
+            .expect("spawn")
+            .join()
+            .ok()
+    };
     let base = &runs[0].0;
     rep.add("runs_in_process", runs.len() as u64);
     rep.count(&format!("cases:{}", c.h));
@@ -798,6 +816,13 @@ fn eval_case(rep: &mut Report, c: &Case, reruns: usize, children: usize, probes_
     };
     for r in &runs[1..] {
         report(rep, "rerun-same-thread", &r.0);
+    }
+    match &after_other {
+        Some(r) => {
+            rep.count("runs_after_a_different_run");
+            report(rep, "after-a-different-run-on-the-same-thread", &r.0);
+        }
+        None => rep.inconclusive(format!("runner thread died for the after-a-different-run relation of {:?}", c.json())),
     }
     for k in kids {
         use std::os::unix::process::ExitStatusExt;
